@@ -80,9 +80,48 @@ def check_plan_edges(run, A):
                   f'the band edge unvisited', construct=f'PLAN::{q}::{what.split()[0]}-edge')
 
 
+def check_plan_segments(run, A):
+    """PLAN: every planned segment [iterations, start, end] is a band of the configured width: end - start == segment_width as polynomials over
+    {segment_width, segment_start, segment_shift, F, running index} (before the two band-edge fixes).  A segment with end < start is empty: its bins are
+    never aligned and its centroid is the mean of nothing.  Compared in rational normal form, so `start + width`, `width + start`, hoisted locals ... are one form."""
+    from ..ratfun import rational, NotRational, A as _A
+    q = P + 'DHTVPermutationAlignment.alignment_plan'
+    fn = A.prog.func(q)
+    g = A.graphs.get(fn)
+    segs = []
+    seen = set()
+    for r in [g.ret] + [e.term for e in g.events if e.term is not None]:
+        for t in walk_terms(r):
+            if t.id in seen:
+                continue
+            seen.add(t.id)
+            if t.op == 'list' and len(t.args[0]) == 3 and not any(x.op == 'star' for x in t.args[0]):
+                segs.append(t)
+
+    def atoms(t):
+        t0 = strip_views(t)
+        if t0.op == 'attr' and strip_views(t0.args[0]).op == 'param' and strip_views(t0.args[0]).args[0] == 'self':
+            return t0.args[1]
+        if t0.op in ('elem', 'unpack', 'mu'):
+            return f'i{t0.id}'
+        return None
+    n = 0
+    for sg in segs:
+        try:
+            st, en = rational(sg.args[0][1], atoms), rational(sg.args[0][2], atoms)
+        except NotRational:
+            continue
+        n += 1
+        run.check((en - st).same(_A('segment_width')), 'PLAN', 'alignment_plan: a planned segment spans segment_width bins', fn.loc(sg.node), '',
+                  f'end - start of a planned segment is {en - st}, not segment_width: an empty or mis-sized band (its bins are skipped or its centroid mixes other bands)',
+                  construct=f'PLAN::{q}::segment-width')
+    run.floor('C16 planned segment literals', n, 3)
+
+
 def check(run):
     A = run.A
     check_plan_edges(run, A)
+    check_plan_segments(run, A)
     run.explanation = (
         'Only the net-reordering clause is decided, structurally: in DHTV the per-bin permutation is applied with the same index vector, bin and guard to the working features and to '
         'the running mapping, which starts as the identity and is only self-gathered by assignments of a score matrix, on a copy of the input; in the greedy aligner the adjacent-bin '
@@ -105,6 +144,37 @@ def check(run):
             okc = base.op == 'mu' or base.op == 'store' or any(x.op == 'mu' for x in unwrap_gamma(base))
     run.check(okc, 'PAIRED', 'DHTV: centroid = mean over the segment bins of the CURRENT features', fn.loc(), '', 'the time centroid is not np.mean(features[:, start:end, :], axis=1) of the running features',
               construct=f'PAIRED::{q}::centroid')
+    # the bins that are re-assigned are exactly the bins the centroid was averaged over: `for f in range(start, end)` with the bounds of features[:, start:end, :]
+    if okc:
+        from ..walk import loop_role, index_extent
+        sl = strip_views(src.args[1].args[0][1])
+        lo, hi = strip_views(sl.args[0]), strip_views(sl.args[1])
+        al0 = [e.term for e in g.events if e.kind == 'call' and call_parts(e.term)[0] == 'method:_align_segment']
+        okb, why = False, 'the bin index of _align_segment is not a running index'
+        if al0:
+            a1 = strip_views(call_arg(al0[0], 1))
+            items = a1.args[1].args[0] if a1.op == 'sub' and a1.args[1].op == 'tuple' else ()
+            fi = strip_views(items[1]) if len(items) == 3 else None
+            r = loop_role(fi) if fi is not None else None
+            if r is not None and r[0] == 'index':
+                it = strip_views(r[1].iter) if getattr(r[1], 'iter', None) is not None else None
+                if it is not None and is_call_to(it, 'builtin.range') and len(call_parts(it)[1]) == 2:
+                    b0, b1 = strip_views(call_arg(it, 0)), strip_views(call_arg(it, 1))
+                    okb = b0 is lo and b1 is hi
+                    why = 'the loop over the bins of a segment does not run over range(start, end) of the segment the centroid was computed on'
+        run.check(okb, 'PAIRED', 'DHTV: every bin of the segment (and only those) is aligned against its centroid', fn.loc(), '', why, construct=f'PAIRED::{q}::segment-bins')
+    # 'cos' compares activity patterns over TIME: every normalisation of features / centroids is along the last axis
+    nn = 0
+    for qq in (q, P + '_ScoreMatrix.cos'):
+        gq = A.graphs.get(A.prog.func(qq))
+        for e in gq.events:
+            if e.kind == 'call' and call_parts(e.term)[0] == P + '_parameterized_vector_norm':
+                nn += 1
+                ax = call_arg(e.term, 1, 'axis')
+                run.check(ax is None or const_val(ax) == -1, 'R-AXIS', f'{qq.split("::")[1]}: cosine features are normalised over time', A.prog.func(qq).loc(e.term.node), '',
+                          'the activity pattern is normalised along another axis than time (-1): the cosine score compares something else than the temporal activity of the classes',
+                          construct=f'R-AXIS::{qq}::time-normalisation')
+    run.floor('C16 cosine normalisations', nn, 4)
     # the per-bin assignment compares the bin's current features with the centroid
     al = [e.term for e in g.events if e.kind == 'call' and call_parts(e.term)[0] == 'method:_align_segment']
     oka = bool(al)
